@@ -50,7 +50,7 @@ MOD = {"quick": 16, "thorough": 1}
 TLC_TIMEOUT = {"quick": 120, "thorough": 420}
 DEV_STRIDE = {"quick": 5, "thorough": 4}
 DEV_ALWAYS = "int1,int3,kinds,single"
-HARNESS_TIMEOUT = {"quick": 120, "thorough": 400}
+HARNESS_TIMEOUT = {"quick": 60, "thorough": 300}
 MAX_REPORTED = 400
 
 LETTERS = "abcdefghijklmnopqrstuvwxyzABCDEFGHIJKLMNOPQRSTUVWXYZ"
